@@ -18,6 +18,7 @@ package types
 
 import (
 	"fmt"
+	"math"
 
 	"github.com/docker/go-units"
 )
@@ -39,10 +40,25 @@ func (u *UnitBytes) DecodeMapstructure(value interface{}) error {
 	switch v := value.(type) {
 	case int:
 		*u = UnitBytes(v)
+	case int64:
+		*u = UnitBytes(v)
+	case uint64:
+		*u = UnitBytes(v)
+	case UnitBytes:
+		*u = v
 	case string:
 		b, err := units.RAMInBytes(fmt.Sprint(value))
 		*u = UnitBytes(b)
 		return err
+	case float64:
+		// the schema admits any number: a float is a byte count as long as it is a whole number
+		if v != math.Trunc(v) {
+			return fmt.Errorf("invalid size %v: not a whole number of bytes", v)
+		}
+		*u = UnitBytes(v)
+	case nil:
+	default:
+		return fmt.Errorf("unexpected value type %T for a size in bytes", value)
 	}
 	return nil
 }
